@@ -205,7 +205,7 @@ func c12(c *ctx) {
 	}
 	for _, srcLen := range []int{0, 1, 2, 8, 9, 10, 100} {
 		src := vh.PBytes(5, 0, srcLen)
-		for mode := 0; mode < 6; mode++ {
+		for mode := 0; mode < 8; mode++ {
 			key := fmt.Sprintf("suffix/%d/%d", srcLen, mode)
 			if !vh.Only(key) {
 				continue
@@ -228,8 +228,17 @@ func c12(c *ctx) {
 				io.ReadAll(r)
 				r.Reset(bytes.NewReader(src))
 			}
+			if mode == 6 || mode == 7 { // Reset from a byte-reader source onto a plain one, and the other way round
+				first, second := io.Reader(bytes.NewReader([]byte("garbage"))), io.Reader(plainReader{bytes.NewReader(src)})
+				if mode == 7 {
+					first, second = plainReader{bytes.NewReader([]byte("garbage"))}, bytes.NewReader(src)
+				}
+				r = wsflate.NewReader(first, func(x io.Reader) wsflate.Decompressor { return &passD{x, true} })
+				r.Read(make([]byte, 3))
+				r.Reset(second)
+			}
 			var got []byte
-			buf := make([]byte, []int{1, 2, 3, 7, 4096, 5}[mode])
+			buf := make([]byte, []int{1, 2, 3, 7, 4096, 5, 2, 6}[mode])
 			var err error
 			for i := 0; i < 10000; i++ {
 				var k int
